@@ -221,6 +221,18 @@ def _make_labelled(case):
         for k, v in case["terms"].items():
             M[k] += v
         return M
+    if case.get("how") == "declared":
+        # the enumeration of some labels is declared first with set_mapping / set_reverse_mapping - with gaps, as in
+        # the library's own test (d.set_reverse_mapping({0: 'a', 2: 'b'})) - then the terms are entered; labels that
+        # were not declared get numbers of their own
+        M = T()
+        if case["rev"]:
+            M.set_reverse_mapping({v: l for l, v in case["decl"].items()})
+        else:
+            M.set_mapping(dict(case["decl"]))
+        for k, v in case["terms"].items():
+            M[k] += v
+        return M
     if case.get("how", "ctor") == "ctor" and not case.get("dead"):
         return T(case["terms"])
     M = T()
@@ -246,6 +258,13 @@ def _gen_methods(ctx):
             yield {"type": t, "terms": terms, "how": "ctor"}
         yield {"type": t, "terms": {(1,): 1, (0,): 2, (1, 0): -1}, "how": "ctor"}     # integer labels, mapping != id
         yield {"type": t, "terms": {('b',): 1, ('a',): 2, ('b', 'a'): -1}, "how": "edits"}
+        for rev in (False, True):
+            # declared enumerations with gaps, then a label that was not declared
+            yield {"type": t, "terms": {('a', 'b'): 1, ('a',): 2}, "how": "declared", "decl": {'a': 0, 'b': 2}, "rev": rev}
+            yield {"type": t, "terms": {('a', 'b'): 1, ('a',): 2, ('c',): -3, ('a', 'c'): 1}, "how": "declared",
+                   "decl": {'a': 0, 'b': 2}, "rev": rev}
+            yield {"type": t, "terms": {('c', 'b'): 1, ('a',): 2, ('c',): -3, ('d', 'a'): 5}, "how": "declared",
+                   "decl": {'a': 3, 'b': 1}, "rev": rev}
         pool_c = _pool(LABELS[:4], k, deg + (0 if deg == 2 else 1), False)
         pool_r = _pool(LABELS[:4], k, 4, True)
         for i in range(n):
